@@ -112,7 +112,7 @@ def exchangeCheck (reqs : List SReq) (calls : List String) (wire : Bytes) (cut :
       | some r, some seen =>
         -- chunked bodies are never delivered; a body of undeclared length runs to the end of the stream
         r.framing == "c" || seen == r.body || ((r.framing == "u" || r.framing == "v") && r.body.isPrefixOf seen) ||
-          (cut && seen.isPrefixOf r.body)
+          (cut && (r.framing == "u" || r.framing == "v") && seen.isPrefixOf r.body)
       | _, _ => false
     | _ => false
   let twiceOk := (reqs.zipIdx.all fun (r, i) =>
@@ -205,7 +205,17 @@ def handle (tag : String) (args : List String) (obs : String) : String :=
       let shownWire := if tailLost then obsWire.getD c.wire else c.wire
       let callStrs := calls.map showCall
       let callStrs := if _sched == "par3" then (callStrs ++ callStrs ++ callStrs).mergeSort (fun a b => a ≤ b) else callStrs
-      let model := s!"calls={"|".intercalate callStrs} wire={encBytes shownWire} files={c.live.length}"
+      -- `hold`: the client keeps its sending side open; the answer arrives early iff the server does not
+      -- need the end of the stream: an over-limit body of undeclared length is refused after M+1 bytes
+      let earlyS :=
+        if _sched != "hold" then "" else
+        match reqs with
+        | [r] =>
+          match r.beh with
+          | .getBody m => if (r.framing == "u" || r.framing == "v") && r.body.length > m && cache != "0" then " early=1" else " early=0"
+          | _ => " early=0"
+        | _ => " early=0"
+      let model := s!"calls={"|".intercalate callStrs} wire={encBytes shownWire} files={c.live.length}{earlyS}"
       let verdict :=
         if obs == "PANIC" then "FAIL:panic:" else
         match obsGet obs "calls", obsWire, obsGet obs "files" with
@@ -216,7 +226,9 @@ def handle (tag : String) (args : List String) (obs : String) : String :=
           let obsCalls := if _sched == "par3" then calls1.map showCall else obsCalls
           let fails := (if parOk then [] else ["concurrent-connections-interfere"]) ++
             exchangeCheck reqs obsCalls (if tailLost then c.wire else wire) (_sched.startsWith "cut") ++
-            (if files == "0" then [] else ["temp-file-left-behind"]) ++ (if tag == "c09" then sizeCheck s (cache != "0") reqs obsCalls wire else [])
+            (if files == "0" then [] else ["temp-file-left-behind"]) ++
+            (if _sched == "hold" && earlyS != "" && obsGet obs "early" != some (earlyS.drop 7).toString then
+               (if earlyS == " early=1" then ["over-limit-body-read-past-limit"] else ["answered-before-end-of-body"]) else []) ++ (if tag == "c09" then sizeCheck s (cache != "0") reqs obsCalls wire else [])
           if fails.isEmpty then (if tailLost then "ok-tail-lost-to-reset" else "ok") else "FAIL:" ++ ",".intercalate fails ++ ":"
         | _, _, _ => "FAIL:unparsable-observation:"
       model ++ "\t" ++ verdict
